@@ -36,6 +36,7 @@ type Opts struct {
 	SetValues             func(ctx context.Context, entries map[string]interface{}) error
 	SetExpiry             func(ctx context.Context, key string, expire time.Time, touch bool)
 	GetState              func() map[int]map[string]internal.KeyData
+	Flush                 func(database int)
 	GetCommand            func(command string) (internal.Command, error)
 	DeleteKey             func(ctx context.Context, key string) error
 	StartSnapshot         func()
@@ -115,6 +116,7 @@ func (r *Raft) RaftInit(ctx context.Context) {
 		NewFSM(FSMOpts{
 			Config:                r.options.Config,
 			GetState:              r.options.GetState,
+			Flush:                 r.options.Flush,
 			GetCommand:            r.options.GetCommand,
 			SetValues:             r.options.SetValues,
 			SetExpiry:             r.options.SetExpiry,
